@@ -19,7 +19,9 @@ fn case_of(b: &[u8]) -> Value {
     bytes_case(b)
 }
 
-pub fn check(b: &[u8], st: &mut Stats, random: bool) {
+/// `random` = Some(maxlen): the case does not come from an enumeration; it is counted as
+/// non-trivial only if it lies outside every exhaustively enumerated sub-space.
+pub fn check(b: &[u8], st: &mut Stats, random: Option<u32>) {
     st.eval();
     let mut accepted_any = false;
     let ascii_alnum = b.iter().all(|c| model::is_alnum(*c));
@@ -220,8 +222,14 @@ pub fn check(b: &[u8], st: &mut Stats, random: bool) {
     if accepted_any || boundary {
         st.class(if accepted_any { "accepted-by-some-type" } else { "rejected-at-class-boundary" });
         let h = hash_bytes(b);
-        if random {
-            st.nontrivial(h, || case_of(b));
+        if let Some(maxlen) = random {
+            let l = b.len() as u32;
+            let enumerated = l <= 3
+                || (l <= maxlen && b.iter().all(|c| BOUNDARY.contains(c)))
+                || (l > maxlen && l <= 9 && b.iter().all(|c| SMALL.contains(c)));
+            if !enumerated {
+                st.nontrivial(h, || case_of(b));
+            }
         } else {
             st.nontrivial_enum(h, || case_of(b));
         }
@@ -264,7 +272,7 @@ pub fn run(cfg: &Cfg) -> Stats {
         for k in 0..len {
             buf[k] = ((v >> (8 * k)) & 0xff) as u8;
         }
-        check(&buf[..len], st, false);
+        check(&buf[..len], st, None);
     });
     total = total.merge(s);
     total.subspace("all byte strings of length 0..=3", n3, true);
@@ -279,7 +287,7 @@ pub fn run(cfg: &Cfg) -> Stats {
                 buf[k] = BOUNDARY[(i % BOUNDARY.len() as u64) as usize];
                 i /= BOUNDARY.len() as u64;
             }
-            check(&buf[..len as usize], st, false);
+            check(&buf[..len as usize], st, None);
         });
         total = total.merge(s);
         total.subspace(&format!("24-byte boundary alphabet, length {len}"), n, true);
@@ -293,7 +301,7 @@ pub fn run(cfg: &Cfg) -> Stats {
                 buf[k] = SMALL[(i % SMALL.len() as u64) as usize];
                 i /= SMALL.len() as u64;
             }
-            check(&buf[..len as usize], st, false);
+            check(&buf[..len as usize], st, None);
         });
         total = total.merge(s);
         total.subspace(&format!("6-byte alphabet, length {len}"), n, true);
@@ -316,14 +324,14 @@ pub fn run(cfg: &Cfg) -> Stats {
         }
     }
     let ncases = cases.len() as u64;
-    let s = par_range(ncases, |i, st| check(&cases[i as usize], st, true));
+    let s = par_range(ncases, |i, st| check(&cases[i as usize], st, Some(maxlen)));
     total = total.merge(s);
     total.subspace("single-byte substitutions of 25 base subtags", ncases, true);
 
     // random
     let n = cfg.pick(300_000, 5_000_000);
     let strat = proptest::collection::vec(crate::gen::s_byte(), 0..10);
-    let s = run_strategy(&strat, cfg.seed, "c15-random", n, |b, st| check(b, st, true));
+    let s = run_strategy(&strat, cfg.seed, "c15-random", n, |b, st| check(b, st, Some(maxlen)));
     total = total.merge(s);
     total.subspace("weighted random bytes, length 0..10 (proptest)", n, false);
     total
@@ -335,6 +343,6 @@ pub fn replay(case: &Value, st: &mut Stats) {
         return;
     }
     if let Some(b) = case_bytes(case) {
-        check(&b, st, true);
+        check(&b, st, Some(0));
     }
 }
